@@ -96,6 +96,60 @@ pub const FAMILIES: &[Family] = &[
     Family { name: "addr-then-instr-in-bank-with-outp", nesting: false, gen: |_, k| format!("#ruledef\n{{\n    nop => 0x00\n}}\n#bankdef a\n{{\n    outp = 8 * 0x10\n}}\n#addr {}\nnop\nl:\n", k) },
     Family { name: "res-in-bank-with-outp", nesting: false, gen: |_, k| format!("#bankdef a\n{{\n    outp = 24\n}}\n#res {}\n#d8 1\n", k) },
     Family { name: "type-width-subrule", nesting: false, gen: |_, k| format!("#subruledef r\n{{\n    {{v: u{}}} => v\n}}\n#ruledef\n{{\n    t {{a: r}} => a @ a\n}}\nt 1\n", k) },
+    // added after round-5 seed C19-5: recursion cycles of length 1..4 (1 + depth % 4) through asm blocks and functions,
+    // with and without parameters (a context without locals is the one a depth counter is most easily lost in)
+    Family { name: "asm-cycle-noparam", nesting: true, gen: |n, _| {
+        let l = 1 + n % 4;
+        let mut s = "#ruledef\n{\n".to_string();
+        for k in 0..l {
+            s.push_str(&format!("    p{} => asm {{ p{} }}\n", k, (k + 1) % l));
+        }
+        s + "}\np0\n"
+    } },
+    Family { name: "asm-cycle-param", nesting: true, gen: |n, _| {
+        let l = 1 + n % 4;
+        let mut s = "#ruledef\n{\n".to_string();
+        for k in 0..l {
+            s.push_str(&format!("    p{} {{x}} => asm {{ p{} {{x}} }}\n", k, (k + 1) % l));
+        }
+        s + "}\np0 1\n"
+    } },
+    Family { name: "fn-cycle-noparam", nesting: true, gen: |n, _| {
+        let l = 1 + n % 4;
+        let mut s = String::new();
+        for k in 0..l {
+            s.push_str(&format!("#fn f{}() => f{}() + 1\n", k, (k + 1) % l));
+        }
+        s + "#d8 f0()\n"
+    } },
+    Family { name: "fn-cycle-param", nesting: true, gen: |n, _| {
+        let l = 1 + n % 4;
+        let mut s = String::new();
+        for k in 0..l {
+            s.push_str(&format!("#fn f{}(a) => f{}(a + 1)\n", k, (k + 1) % l));
+        }
+        s + "#d8 f0(0)\n"
+    } },
+    Family { name: "asm-fn-cycle-noparam", nesting: true, gen: |n, _| {
+        let l = 1 + n % 4;
+        let mut s = "#ruledef\n{\n    ping => asm { pong }\n    pong => relay0()\n}\n".to_string();
+        for k in 0..l {
+            if k + 1 < l {
+                s.push_str(&format!("#fn relay{}() => relay{}()\n", k, k + 1));
+            } else {
+                s.push_str(&format!("#fn relay{}() => asm {{ ping }}\n", k));
+            }
+        }
+        s + "ping\n"
+    } },
+    Family { name: "asm-cycle-in-data", nesting: true, gen: |n, _| {
+        let l = 1 + n % 4;
+        let mut s = "#ruledef\n{\n".to_string();
+        for k in 0..l {
+            s.push_str(&format!("    p{} => 0x1 @ asm {{ p{} }}\n", k, (k + 1) % l));
+        }
+        s + "}\n#d asm { p0 }\n"
+    } },
 ];
 
 pub fn magnitudes() -> Vec<String> {
